@@ -520,6 +520,13 @@ theorem dlvInv_step {s s' : State} {a : Act} {o : Out} (h : DlvInv s) (hset : Se
       obtain ⟨rfl, -⟩ := hs
       refine h.of_quiet (by simp) (fun c' => by simp; repeat' split <;> simp_all) (fun th' => Or.inl (by simp))
     · simp at hs
+  | routerOk c =>
+    simp only [step] at hs
+    split at hs
+    · simp only [Option.some.injEq, Prod.mk.injEq] at hs
+      obtain ⟨rfl, -⟩ := hs
+      refine h.of_quiet (by simp) (fun c' => by simp; repeat' split <;> simp_all) (fun th' => Or.inl (by simp))
+    · simp at hs
   | stopReq c =>
     simp only [step] at hs
     split at hs
